@@ -137,3 +137,30 @@ package req
 //@   ghostset after MayContinue: rlMayCont = result
 //@   assert before ContinueReadBodyStream: !rlMayCont && arg1 == zr && arg2 == maxBodySize
 
+// req.writeBodyStream (C11): the header goes out first and once; a body of known length is written with exactly
+// that length, otherwise chunked framing is announced (-1) before the header, the body is chunked and the trailer
+// follows only after the body succeeded; the body stream is closed on every path.
+//@ ghost var wsHdr int
+//@ ghost var wsCL int
+//@ ghost var wsBody int
+//@ ghost var wsClosed bool
+//@ func writeBodyStream(req, w) err
+//@   props C11
+//@   abstract
+//@   noinline
+//@   modifies wsHdr, wsCL, wsBody, wsClosed
+//@   ghostset-at-entry wsHdr = 0
+//@   ghostset-at-entry wsCL = -5
+//@   ghostset-at-entry wsBody = 0
+//@   ghostset-at-entry wsClosed = false
+//@   ghostset after RequestHeader.SetContentLength: wsCL = arg1
+//@   assert before WriteHeader: wsHdr == 0 && (contentLength >= 0 || wsCL == -1)
+//@   ghostset after WriteHeader: wsHdr = ite(result == nil, 1, -1)
+//@   assert before WriteBodyFixedSize: wsHdr == 1 && contentLength >= 0 && arg2 == contentLength && wsBody == 0
+//@   ghostset after WriteBodyFixedSize: wsBody = 1
+//@   assert before WriteBodyChunked: wsHdr == 1 && wsCL == -1 && wsBody == 0
+//@   ghostset after WriteBodyChunked: wsBody = ite(result == nil, 2, -1)
+//@   assert before WriteTrailer: wsBody == 2
+//@   ghostset after CloseBodyStream: wsClosed = true
+//@   top-ensures wsClosed
+
